@@ -405,14 +405,22 @@ pub async fn run_one(cfg: &RouteCfg) -> Vec<Value> {
         match rig.rng.gen_range(0..6) {
             0 | 1 => {
                 // failover of a random in-cluster proxy: it becomes unreachable, the broker replaces it
+                // only a reachable proxy whose chunk partner is reachable may fail, and at most two proxies are ever down: with
+                // both proxies of a chunk gone (or a refused replacement followed by the partner's failure) the chunk's slots
+                // have no owner and C02 does not apply (seen once as a false alarm: the outcome depends on HashMap order)
                 let raw = rig.w.broker.raw_store().await;
+                let down: Vec<String> = rig.w.net.inner.down.lock().iter().cloned().collect();
                 let mut members: Vec<String> = vec![];
                 for ch in raw["clusters"]["c1"]["chunks"].as_array().cloned().unwrap_or_default() {
-                    for p in ch["proxy_addresses"].as_array().cloned().unwrap_or_default() {
-                        members.push(p.as_str().unwrap_or("").to_string());
+                    let ps: Vec<String> = ch["proxy_addresses"].as_array().cloned().unwrap_or_default().iter().map(|p| p.as_str().unwrap_or("").to_string()).collect();
+                    if ps.len() == 2 && !down.contains(&ps[0]) && !down.contains(&ps[1]) {
+                        members.extend(ps);
                     }
                 }
                 members.sort();
+                if down.len() >= 2 {
+                    members.clear();
+                }
                 if let Some(a) = members.choose(&mut rig.rng).cloned() {
                     rig.w.net.inner.down.lock().insert(a.clone());
                     rig.op(Op::Failover { addr: a }).await;
